@@ -34,6 +34,8 @@ class Models:
         register_core(self)
         from . import models_async
         models_async.register(self)
+        from . import models_iter
+        models_iter.register(self)
 
     def reg(self, *keys):
         def deco(f):
@@ -347,19 +349,33 @@ class Models:
     def constant(self, ex, frame, t):
         m = re.match(r'(.*)::promoted\[(\d+)\]$', t)
         if m or re.match(r'.*promoted\[\d+\]', t):
-            name = t.split(':')[0] if False else t
-            b = self.prog.bodies.get(t)
+            n = re.search(r'promoted\[(\d+)\]$', t).group(1)
+            b = self.prog.bodies.get('%s::promoted[%s]' % (frame.body.name, n))
             if b is None:
-                # promoted names are printed with the full body name
-                c = [bb for n, bb in self.prog.bodies.items() if n == t or n.endswith(t)]
-                if len(c) != 1:
-                    raise Inconclusive('promoted %s' % t)
-                b = c[0]
+                b = self.prog.bodies.get(t)
+            if b is None:
+                raise Inconclusive('promoted %s' % t)
             key = ('promoted', b.name)
             cache = ex.env.setdefault('promoted', {})
             if key not in cache:
                 cache[key] = ex.call_body(b, [])
             return cache[key]
+        sm = re.match(r'^(.*?) \{\{ (.*) \}\}$', t, re.S)
+        if sm:
+            # struct constant `Path {{ f: v, .. }}`
+            fl = self.prog.tables.struct_fields(sm.group(1))
+            if not isinstance(fl, list):
+                raise Inconclusive('struct constant %r' % t)
+            vals = {}
+            for part in split_top(sm.group(2)):
+                part = part.strip()
+                if not part:
+                    continue
+                fname, fv = part.split(': ', 1)
+                if fname not in fl:
+                    raise Inconclusive('struct constant field %r' % part)
+                vals[(None, fl.index(fname))] = frame.const(fv.strip())
+            return Adt(sm.group(1), vals, None, None)
         if re.fullmatch(r'core::num::<impl (\w+)>::MAX', t):
             ty = re.fullmatch(r'core::num::<impl (\w+)>::MAX', t).group(1)
             return z3.BitVecVal(-1, INT_BITS[ty])
@@ -704,6 +720,9 @@ def register_core(M):
         if body is not None:
             return ex.call_body(body, a)
         st = (info['self_ty'] or '').strip()
+        if re.sub(r'[&\s]', '', st) in ('std::string::String', 'String', 'str'):
+            r = M.str_eq(ex, info, a, dty)
+            return r if info['method'] == 'eq' else z3.Not(r)
         r = M.opaque_eq(ex, st, a[0], a[1])
         return r if info['method'] == 'eq' else z3.Not(r)
 
